@@ -1258,7 +1258,9 @@ func runRace17(in race17Input, sec *vh.Section) {
 		cancel()
 		if parked {
 			// the persist goroutine does not depend on the parked worker: wait for the final write
-			for t0 := time.Now(); time.Since(t0) < 3*time.Second; time.Sleep(2 * time.Millisecond) {
+			// (since fix c6aad9a it waits for the parked worker: no write appears, which is the expected outcome; one
+			// second is ample for the old order, where the write followed the cancel within milliseconds)
+			for t0 := time.Now(); time.Since(t0) < time.Second; time.Sleep(2 * time.Millisecond) {
 				if st.nWrites() > n0 {
 					persistedBeforeRelease = true
 					break
@@ -1289,7 +1291,11 @@ func runRace17(in race17Input, sec *vh.Section) {
 		return
 	}
 	if want > 0 && (!parked || !persisted) {
-		res.Note("race17: schedule not reached (events confirmed=%d parked=%v final write seen=%v)", len(pays), parked, persisted)
+		if parked && !persisted {
+			res.Note("race17: the final persist waited for the parked worker (expected since fix c6aad9a; events confirmed=%d)", len(pays))
+		} else {
+			res.Note("race17: schedule not reached (events confirmed=%d parked=%v final write seen=%v)", len(pays), parked, persisted)
+		}
 		return
 	}
 	if off == confirmedEnd {
